@@ -237,16 +237,27 @@ def ipRangeMatches (addr : IP) : IpRange → Bool
   | .cidr net mask => cidrContains net mask addr
   | .invalid => false
 
-/-- `domain == d || strings.HasSuffix(domain, "." + d)` -/
+/-- `domain = asciiLower(domain)`, `d = asciiLower(d)`, `domain == d || strings.HasSuffix(domain, "." + d)`
+    (since "fix: socks5 egress domain name rules match case-insensitively"; before it the comparison was bytewise) -/
 def domainMatches (domain : Name) : DomainPat → Bool
   | .star => true
-  | .name d => domain == d || (46 :: d).isSuffixOf domain
+  | .name d => asciiLower domain == asciiLower d || (46 :: asciiLower d).isSuffixOf (asciiLower domain)
 
-/-- `matchEgressRule`: IP rules apply to IP-typed destinations, domain rules to domain-typed ones -/
-def ruleMatches (dst : Dst) (r : Rule) : Bool :=
-  if !dst.ip.isEmpty then r.ipRanges.any (ipRangeMatches dst.ip)
-  else if !dst.fqdn.isEmpty then r.domains.any (domainMatches dst.fqdn)
-  else false
+/-- the address the IP ranges of a rule are applied to: the request's own, or — since "fix: socks5 egress IP range
+    rules match an IP address literal sent as a domain name" — the literal (zone ignored) a domain-typed destination
+    spells; `none`: an ordinary name -/
+def ruleIP (parseIP : Name → Option IP) (dst : Dst) : Option IP :=
+  if !dst.ip.isEmpty then some dst.ip
+  else if !dst.fqdn.isEmpty then parseIPLiteral parseIP dst.fqdn
+  else none
+
+/-- `matchEgressRule`: IP ranges apply to IP-typed destinations and to IP literals sent as a domain name, domain
+    patterns to every domain-typed destination (ASCII case-insensitively) -/
+def ruleMatches (parseIP : Name → Option IP) (dst : Dst) (r : Rule) : Bool :=
+  (match ruleIP parseIP dst with
+    | some ip => r.ipRanges.any (ipRangeMatches ip)
+    | none => false) ||
+  (dst.ip.isEmpty && !dst.fqdn.isEmpty && r.domains.any (domainMatches dst.fqdn))
 
 structure Decision where
   action : Action
@@ -262,9 +273,9 @@ def proxyChoicesOf (cfg : Config) (r : Rule) : List (Option Nat) :=
     if i < cfg.proxies.length then some i else none
 
 /-- `forwardToProxyAction` -/
-def forwardToProxy (cfg : Config) (req : Request) : Decision :=
+def forwardToProxy (cfg : Config) (parseIP : Name → Option IP) (req : Request) : Decision :=
   if req.dst.ip.isEmpty && req.dst.fqdn.isEmpty then ⟨.direct, []⟩ else
-  match cfg.rules.find? (ruleMatches req.dst) with
+  match cfg.rules.find? (ruleMatches parseIP req.dst) with
   | none => ⟨.direct, []⟩
   | some r => if r.action = .proxy then ⟨.proxy, proxyChoicesOf cfg r⟩ else ⟨r.action, []⟩
 
@@ -278,7 +289,7 @@ def findAction (cfg : Config) (parseIP : Name → Option IP) (protoOK : Bool) (e
   | .ok req =>
     if req.cmd = connectCmd ∨ req.cmd = udpAssociateCmd then
       if rejectPrivateAndLoopback cfg parseIP envUser req = .reject then ⟨.reject, []⟩
-      else forwardToProxy cfg req
+      else forwardToProxy cfg parseIP req
     else ⟨.direct, []⟩
 
 /-! ## what the server then does -/
